@@ -88,7 +88,7 @@ theorem upperFile_consistent {s : St} (hc : Consistent s) {L : Layer} (hup : s.d
     (by
       intro _ c
       rw [hd', hloc2]
-      refine ⟨fun hcin => ?_, fun h => absurd rfl h⟩
+      refine ⟨fun hcin => ?_, fun h => by simp [needsNode] at h⟩
       have : c ∈ m.kids := hcin
       rw [hk] at this; cases this)
     (by simp [headWhiteout, realOf, hq0, hXw])
